@@ -1,3 +1,4 @@
+import GitSizer.Proofs.GraphRun7
 import GitSizer.Proofs.GraphTrees
 import GitSizer.Proofs.GraphCommits
 /-! # C09 — Numeric results are independent of enumeration order
@@ -44,5 +45,22 @@ theorem commit_order_independent (r : Repo) (wf : CommitsWF r) (ops1 ops2 : List
 /-- saturating sums and maxima are insensitive to the order of their operands -/
 theorem sum_order_independent (c : Nat) {l1 l2 : List Nat} (p : l1.Perm l2) : satSum c l1 = satSum c l2 :=
   satSum_perm c p
+
+
+/-- **Whole-run order independence.** Two valid schedules delivering the same objects in any two
+    orders and interleavings (and the same number of references) both complete and give the same
+    22 numbers; neither leaves a pending record. -/
+theorem whole_run_order_independent (r : Repo) (ops1 ops2 : List Op) (v1 : ValidRun r ops1)
+    (hv2 : ValidFrom r [] [] [] [] ops2)
+    (pB : (blobsOf ops1).Perm (blobsOf ops2)) (pT : (treesOf ops1).Perm (treesOf ops2))
+    (pC : (commitsOf ops1).Perm (commitsOf ops2)) (pG : (tagsOf ops1).Perm (tagsOf ops2))
+    (pR : refsOf ops1 = refsOf ops2) :
+    ∃ st1 st2, runOps r ops1 {} = .ok st1 ∧ runOps r ops2 {} = .ok st2 ∧ allNums st1.hist = allNums st2.hist :=
+  run_order_independent r v1.ok ops1 ops2 v1.valid hv2 pB pT pC pG pR v1.closedT v1.closedG v1.areTags v1.sizes v1.nparents
+
+/-- no valid run panics and `HistorySize()` finds no remaining record -/
+theorem whole_run_completes (r : Repo) (ops : List Op) (v : ValidRun r ops) :
+    ∃ st, runOps r ops {} = .ok st ∧ historySize r st = .ok st.hist :=
+  let ⟨st, h, hs, _⟩ := v.result; ⟨st, h, hs⟩
 
 end GitSizer.C09
